@@ -387,13 +387,15 @@ class ExactEnv(BaseEnv):
     by z3.simplify on constants)."""
     mode = 'exact'
 
-    def __init__(self, tt, seed):
+    def __init__(self, tt, seed, scalar_mode='Z'):
         BaseEnv.__init__(self, tt)
         self.seed = seed
         self.outputs = []
+        self.scalar_mode = scalar_mode
 
-    @staticmethod
-    def _k(fr, kind='float'):
+    def _k(self, fr, kind='float'):
+        if self.scalar_mode == 'A':
+            return apoly.P.const(fr) if fr != 0 else 0
         return Z(z3.RealVal(fr), kind)
 
     def _arr(self, name, shape, dtype):
